@@ -13,6 +13,7 @@ import (
 	"archive/tar"
 	"bytes"
 	"fmt"
+	"io"
 	"io/fs"
 	"os"
 	"path/filepath"
@@ -21,6 +22,7 @@ import (
 	"strings"
 	"syscall"
 	"time"
+	"unicode/utf8"
 
 	btar "github.com/ipfs/boxo/tar"
 
@@ -69,6 +71,201 @@ func linkTarget(r *vh.Rand, depth int, places []string) string {
 	default:
 		return vh.Pick(r, []string{"", ".", "/", "/nonexistent/x", "loop", "/out/ol"})
 	}
+}
+
+// ---- hand-made tar streams: everything archive/tar's Writer refuses to produce but its Reader accepts
+
+type rawHdr struct {
+	name, prefix, linkname string
+	typeflag               byte
+	mode, mtime            int64
+	b256mode, b256mtime    bool // base-256 (GNU) numeric encoding, the only way to get negative / huge values
+	data                   []byte
+	gnu                    bool
+}
+
+func putOctal(b []byte, v int64) {
+	s := fmt.Sprintf("%0*o", len(b)-1, v)
+	copy(b, s)
+}
+
+func putB256(b []byte, v int64) {
+	for i := len(b) - 1; i >= 0; i-- {
+		b[i] = byte(v)
+		v >>= 8
+	}
+	b[0] |= 0x80
+}
+
+func (h rawHdr) block() []byte {
+	b := make([]byte, 512)
+	copy(b[0:100], h.name)
+	if h.b256mode {
+		putB256(b[100:108], h.mode)
+	} else {
+		putOctal(b[100:108], h.mode)
+	}
+	putOctal(b[108:116], 0)
+	putOctal(b[116:124], 0)
+	putOctal(b[124:136], int64(len(h.data)))
+	if h.b256mtime {
+		putB256(b[136:148], h.mtime)
+	} else {
+		putOctal(b[136:148], h.mtime)
+	}
+	b[156] = h.typeflag
+	copy(b[157:257], h.linkname)
+	if h.gnu {
+		copy(b[257:265], "ustar  \x00")
+	} else {
+		copy(b[257:263], "ustar\x00")
+		copy(b[263:265], "00")
+		copy(b[345:500], h.prefix)
+	}
+	for i := 148; i < 156; i++ {
+		b[i] = ' '
+	}
+	sum := 0
+	for _, c := range b {
+		sum += int(c)
+	}
+	copy(b[148:156], fmt.Sprintf("%06o\x00 ", sum))
+	out := append([]byte{}, b...)
+	out = append(out, h.data...)
+	if pad := (512 - len(h.data)%512) % 512; pad > 0 {
+		out = append(out, make([]byte, pad)...)
+	}
+	return out
+}
+
+func paxRecord(k, v string) string {
+	n := len(k) + len(v) + 3
+	for {
+		s := fmt.Sprintf("%d %s=%s\n", n, k, v)
+		if len(s) == n {
+			return s
+		}
+		n = len(s)
+	}
+}
+
+// readerEntries parses a raw stream with the real archive/tar Reader and renders the entries for the model.
+func readerEntries(raw []byte) []string {
+	var es []string
+	tr := tar.NewReader(bytes.NewReader(raw))
+	for {
+		h, err := tr.Next()
+		if err == io.EOF {
+			return es
+		}
+		if err != nil {
+			return append(es, "e")
+		}
+		name := vh.Hex([]byte(h.Name))
+		mt := h.ModTime.Unix()
+		switch h.Typeflag {
+		case tar.TypeDir:
+			es = append(es, fmt.Sprintf("d,%s,%d,%d", name, h.Mode, mt))
+		case tar.TypeReg:
+			data, err := io.ReadAll(tr)
+			if err != nil {
+				return append(es, "e")
+			}
+			es = append(es, fmt.Sprintf("f,%s,%d,%d,%s", name, h.Mode, mt, vh.Hex(data)))
+		case tar.TypeSymlink:
+			es = append(es, fmt.Sprintf("l,%s,%s,%d,%d", name, vh.Hex([]byte(h.Linkname)), h.Mode, mt))
+		default:
+			es = append(es, fmt.Sprintf("x,%s", name))
+		}
+	}
+}
+
+// genRaw builds a hostile hand-made archive; ok=false when it is unusable for the model (non UTF-8, out-of-range times).
+func genRaw(r *vh.Rand) (raw []byte, entries []string, ok bool) {
+	root := vh.Pick(r, []string{"root", "r"})
+	hs := []rawHdr{{name: root, typeflag: '5', mode: int64(modeFor(r, true)), mtime: 6001}}
+	relLinks := []string{"../../out", "../../out/of", "../sibling", "nowhere", "a", "../.."}
+	for j, n := 0, r.Range(1, 6); j < n; j++ {
+		nm := root + "/" + vh.Pick(r, []string{"a", "b", "c", "a/b", "d"})
+		h := rawHdr{name: nm, typeflag: '5', mode: int64(modeFor(r, true)), mtime: int64(6002 + j)}
+		switch r.Intn(16) {
+		case 0: // NUL inside the name field: the reader stops at it
+			h.name = nm + "\x00/../../out/evil"
+		case 1: // ustar prefix field
+			h.prefix, h.name = root+"/"+vh.Pick(r, []string{"a", "p"}), vh.Pick(r, []string{"q", "../x", ""})
+		case 2: // negative mode (base-256)
+			h.b256mode, h.mode = true, vh.Pick(r, []int64{-1, -0o1000, -0o700})
+		case 3: // mode beyond 32 bits: uint32() wraps
+			h.b256mode, h.mode = true, int64(1)<<32|int64(modeFor(r, true))
+		case 4: // negative / far mtime
+			h.b256mtime, h.mtime = true, vh.Pick(r, []int64{-5, -86400, 4000000000})
+		case 5: // hard link
+			h.typeflag, h.linkname = '1', vh.Pick(r, []string{root + "/a", "../../out/of", "/etc/passwd"})
+		case 6: // devices, fifo, contiguous, unknown flags
+			h.typeflag = vh.Pick(r, []byte{'3', '4', '6', '7', 'Z', 'S'})
+		case 7: // old-style regular file flag (NUL), with and without trailing slash
+			h.typeflag = 0
+			if r.Bool() {
+				h.name = nm + "/"
+			} else {
+				h.data = []byte("regA")
+			}
+		case 8: // pax extended header overriding the path of the next entry
+			p := vh.Pick(r, []string{root + "/pax", "/abs/pax", root + "/../up", root + "/a\x00b", "other/pax", root + "/é"})
+			rec := paxRecord("path", p)
+			if r.Chance(1, 4) {
+				rec += paxRecord("mtime", "-3.5")
+			}
+			hs = append(hs, rawHdr{name: "PaxHeaders/x", typeflag: 'x', mode: 0o644, data: []byte(rec)})
+		case 9: // pax global header (skipped by the reader)
+			hs = append(hs, rawHdr{name: "pax_global_header", typeflag: 'g', mode: 0o644, data: []byte(paxRecord("comment", "x"))})
+		case 10: // GNU long name
+			long := root + "/" + strings.Repeat("n", 120)
+			if r.Bool() {
+				long = root + "/../" + strings.Repeat("n", 110)
+			}
+			hs = append(hs, rawHdr{name: "././@LongLink", typeflag: 'L', gnu: true, data: append([]byte(long), 0)})
+			h.gnu = true
+		case 11: // symlink written by hand, GNU long link name
+			hs = append(hs, rawHdr{name: "././@LongLink", typeflag: 'K', gnu: true, data: append([]byte("../../out/"+strings.Repeat("k", 110)), 0)})
+			h.gnu, h.typeflag = true, '2'
+		case 12, 13:
+			h.typeflag, h.linkname = '2', vh.Pick(r, relLinks)
+		case 14:
+			h.typeflag, h.data = '0', []byte("data")
+		}
+		hs = append(hs, h)
+	}
+	if r.Chance(1, 5) { // directory replaced by a symlink, the C38 pattern, in a hand-made stream
+		hs = append(hs, rawHdr{name: root + "/z", typeflag: '5', mode: 0o700, mtime: 6100},
+			rawHdr{name: root + "/z", typeflag: '2', linkname: "../../out", mode: 0o777, mtime: 6101})
+	}
+	for _, h := range hs {
+		raw = append(raw, h.block()...)
+	}
+	if r.Chance(1, 10) {
+		raw = raw[:len(raw)-r.Range(1, 300)] // truncated stream
+	} else {
+		raw = append(raw, make([]byte, 1024)...)
+	}
+	entries = readerEntries(raw)
+	tr := tar.NewReader(bytes.NewReader(raw))
+	for {
+		h, err := tr.Next()
+		if err != nil {
+			break
+		}
+		if !utf8.ValidString(h.Name) || !utf8.ValidString(h.Linkname) || strings.ContainsAny(h.Name+h.Linkname, "\x00") {
+			return nil, nil, false
+		}
+		if t := h.ModTime.Unix(); t > 5000000000 || t < -5000000000 {
+			return nil, nil, false
+		}
+		if h.Typeflag == tar.TypeSymlink && (strings.HasPrefix(h.Linkname, "/") || strings.Count(h.Linkname, "..") > 2) {
+			return nil, nil, false // safety: only short relative link targets in hand-made streams
+		}
+	}
+	return raw, entries, len(entries) > 0
 }
 
 func nonEmpty(s string) string {
@@ -234,6 +431,11 @@ func gen(r *vh.Rand, tier string, n int, emit func(vh.Case)) {
 			}
 			c.Ops = append(c.Ops, "extract "+target+" "+strings.Join(es, " "))
 		}
+		if r.Chance(1, 4) {
+			if raw, es, ok := genRaw(r.Fork()); ok {
+				c.Ops = append(c.Ops, "extractraw "+target+" "+vh.Hex(raw)+" "+strings.Join(es, " "))
+			}
+		}
 		emit(c)
 	}
 }
@@ -292,7 +494,7 @@ func snapshot(root string) map[string]obj {
 }
 
 func showTime(t int64, start int64) string {
-	if t >= start-2 {
+	if t >= start-2 && t <= time.Now().Unix()+2 {
 		return "now"
 	}
 	return strconv.FormatInt(t, 10)
@@ -449,64 +651,81 @@ func exec(c vh.Case, o *vh.Out) {
 			}
 			tw.Close()
 			_ = skipped
-			before := snapshot(sb)
-			te := &btar.Extractor{Path: filepath.Join(sb, target)}
-			xerr := te.Extract(bytes.NewReader(buf.Bytes()))
-			after := snapshot(sb)
-			// ---- monitor: nothing outside the target changed
-			changedInside := false
-			keys := map[string]bool{}
-			for k := range before {
-				keys[k] = true
+			runExtract(o, sb, target, buf.Bytes(), start)
+		case "extractraw":
+			raw := vh.UnHex(f[2])
+			// the op line carries what archive/tar's Reader returned at generation time: check that the
+			// reader of this run agrees (the model consumes those entries)
+			if got := strings.Join(readerEntries(raw), " "); got != strings.Join(f[3:], " ") {
+				o.Fail("tar-reader-differs", "archive/tar parses the raw stream differently: %s", got)
 			}
-			for k := range after {
-				keys[k] = true
+			o.Kind("raw-archive")
+			for _, t := range f[3:] {
+				o.Kind("raw-" + t[:1])
 			}
-			for k := range keys {
-				b, inB := before[k]
-				a, inA := after[k]
-				inside := k == target || strings.HasPrefix(k, target+"/")
-				if inside {
-					if inB != inA || !sameObj(a, b, false) {
-						changedInside = true
-					}
-					continue
-				}
-				ancestor := k == "." || strings.HasPrefix(target, k+"/")
-				switch {
-				case inB && inA && sameObj(a, b, false):
-				case ancestor && inB && inA && b.kind == 'd' && sameObj(a, b, true): // entry added below: mtime only
-				case ancestor && !inB && inA && a.kind == 'd': // MkdirAll created a missing ancestor of the target
-				default:
-					kind := "changed"
-					if !inB {
-						kind = "created"
-					} else if !inA {
-						kind = "removed"
-					} else if a.mode != b.mode {
-						kind = "chmod"
-					} else if a.mtime != b.mtime {
-						kind = "mtime"
-					}
-					o.Fail("outside-"+kind, "%s outside the target %s: before=%s after=%s", k, target,
-						showObjOpt(k, b, inB, sb, start), showObjOpt(k, a, inA, sb, start))
-				}
-			}
-			if changedInside {
-				o.Nontrivial()
-			}
-			res := "ok"
-			if xerr != nil {
-				res = "err"
-				o.Kind("extract-err")
-			} else {
-				o.Kind("extract-ok")
-			}
-			o.Emit("%s %s", res, showWorld(after, sb, start))
+			runExtract(o, sb, f[1], raw, start)
 		default:
 			o.Emit("bad-op")
 		}
 	}
+}
+
+// runExtract extracts the stream with the real Extractor, runs the monitor and emits the output line.
+func runExtract(o *vh.Out, sb, target string, tarBytes []byte, start int64) {
+	before := snapshot(sb)
+	te := &btar.Extractor{Path: filepath.Join(sb, target)}
+	xerr := te.Extract(bytes.NewReader(tarBytes))
+	after := snapshot(sb)
+	// ---- monitor: nothing outside the target changed
+	changedInside := false
+	keys := map[string]bool{}
+	for k := range before {
+		keys[k] = true
+	}
+	for k := range after {
+		keys[k] = true
+	}
+	for k := range keys {
+		b, inB := before[k]
+		a, inA := after[k]
+		inside := k == target || strings.HasPrefix(k, target+"/")
+		if inside {
+			if inB != inA || !sameObj(a, b, false) {
+				changedInside = true
+			}
+			continue
+		}
+		ancestor := k == "." || strings.HasPrefix(target, k+"/")
+		switch {
+		case inB && inA && sameObj(a, b, false):
+		case ancestor && inB && inA && b.kind == 'd' && sameObj(a, b, true): // entry added below: mtime only
+		case ancestor && !inB && inA && a.kind == 'd': // MkdirAll created a missing ancestor of the target
+		default:
+			kind := "changed"
+			if !inB {
+				kind = "created"
+			} else if !inA {
+				kind = "removed"
+			} else if a.mode != b.mode {
+				kind = "chmod"
+			} else if a.mtime != b.mtime {
+				kind = "mtime"
+			}
+			o.Fail("outside-"+kind, "%s outside the target %s: before=%s after=%s", k, target,
+				showObjOpt(k, b, inB, sb, start), showObjOpt(k, a, inA, sb, start))
+		}
+	}
+	if changedInside {
+		o.Nontrivial()
+	}
+	res := "ok"
+	if xerr != nil {
+		res = "err"
+		o.Kind("extract-err")
+	} else {
+		o.Kind("extract-ok")
+	}
+	o.Emit("%s %s", res, showWorld(after, sb, start))
 }
 
 func showObjOpt(k string, x obj, present bool, sb string, start int64) string {
